@@ -135,6 +135,10 @@ class Harness:
         """[(class name, formula)] that should be reachable on some done path (vacuity guard)"""
         return []
 
+    def native_inputs(self, case, j):
+        """what the replay kernel receives for concrete inputs j"""
+        return j
+
     def case_label(self, case):
         return json.dumps(case, sort_keys=True)
 
@@ -315,7 +319,7 @@ def run_check(prop, harnesses, tier, seed, level_text='', jobs=None, time_cap=No
                 vecs.append((case, j))
         if not vecs:
             continue
-        natives = NATIVE.run(h.kernel, [dict(case=c, inputs=j) for c, j in vecs])
+        natives = NATIVE.run(h.kernel, [dict(case=c, inputs=h.native_inputs(c, j)) for c, j in vecs])
         for (case, j), nat in zip(vecs, natives):
             try:
                 mine = run_concrete(h, case, j, tier)
@@ -397,7 +401,7 @@ def run_check(prop, harnesses, tier, seed, level_text='', jobs=None, time_cap=No
             continue
         hn, case, k = hit
         h = hmap[hn]
-        nat = NATIVE.run(h.kernel, [dict(case=case, inputs=k['inputs'])])[0] if h.kernel else None
+        nat = NATIVE.run(h.kernel, [dict(case=case, inputs=h.native_inputs(case, k['inputs']))])[0] if h.kernel else None
         n_replayed += 1
         if h.kernel and not h.is_violation(case, k['inputs'], nat):
             print('ERROR property=%s known finding %s: symbolic counterexample %s does not reproduce natively (%s)'
@@ -419,7 +423,7 @@ def run_check(prop, harnesses, tier, seed, level_text='', jobs=None, time_cap=No
         if h.kernel is None:
             nat, genuine, agrees = None, True, True
         else:
-            nat = NATIVE.run(h.kernel, [dict(case=case, inputs=v['inputs'])])[0]
+            nat = NATIVE.run(h.kernel, [dict(case=case, inputs=h.native_inputs(case, v['inputs']))])[0]
             n_replayed += 1
             genuine = h.is_violation(case, v['inputs'], nat)
             agrees = h.native_matches(case, v['inputs'], nat, v['predicted'])
